@@ -184,6 +184,4 @@ def aborted_check(prop, w, kind="aborted"):
             exc, msg, at = s.raise_exc
             prop.own(w, f"{kind}:{exc}", s,
                      f"next() raised {exc}({msg!r}) after {at} actions")
-        elif s.how == "construct_failed":
-            prop.own(w, f"{kind}:construct:{s.construct_exc}", s,
-                     f"constructor raised {s.construct_exc}")
+        # a constructor that raises emits no stream at all: C17's business
